@@ -2122,8 +2122,15 @@ pick:
 		}
 		break;
 	case DISPATCH_OP_COMPLETE_RESUME:
+		// Completing the operation may free it, and the stream source is
+		// created from the operation: create it while `op` is still valid
+		(void)_dispatch_stream_source(stream, op);
 		_dispatch_stream_complete_operation(stream, op);
-		DISPATCH_FALLTHROUGH;
+		if (_dispatch_stream_operation_avail(stream)) {
+			stream->source_running = true;
+			dispatch_resume(stream->source);
+		}
+		break;
 	case DISPATCH_OP_RESUME:
 		if (_dispatch_stream_operation_avail(stream)) {
 			stream->source_running = true;
